@@ -65,10 +65,15 @@ def representations(c, kind, dom, m=2, n=2, N=2):
     c.eq('forward_of_parameters', out, spec)
     c.holds('plain_input_gives_plain_output', type(out) is np.ndarray or not isinstance(out, CUQIarray))
     c.eq('forward_of_function_values_flagged', model.forward(gd.par2fun(p), is_par=False), spec)
-    a = CUQIarray(p, is_par=True, geometry=gd)
+    a = CUQIarray(p.copy(), is_par=True, geometry=gd)
     oa = model.forward(a)
     c.holds('cuqiarray_in_gives_cuqiarray_out_as_range_parameters', isinstance(oa, CUQIarray) and oa.is_par and oa.geometry == model.range_geometry)
     c.eq('forward_of_cuqiarray_parameters', np.asarray(oa), spec)
+    # history: the same array object is updated in place and used again (as samplers and optimisers do)
+    q = c.vec('q', n)
+    a[:] = q
+    c.eq('forward_of_cuqiarray_after_in_place_update_uses_the_current_values', np.asarray(model.forward(a)), f(gd.par2fun(q)))
+    c.eq('funvals_of_cuqiarray_after_in_place_update', np.asarray(a.funvals), gd.par2fun(q))
     af = CUQIarray(gd.par2fun(p), is_par=False, geometry=gd)
     oaf = model.forward(af)
     c.holds('cuqiarray_funvals_in_gives_cuqiarray_out', isinstance(oaf, CUQIarray) and oaf.is_par)
@@ -96,6 +101,11 @@ def gradient(c, kind, dom, m=2, n=2):
     c.holds('gradient_has_domain_parameter_shape', np.shape(g) == (n,), note=str(np.shape(g)))
     spec = c.grad_of(lambda v: np.sum(np.asarray(model.forward(v)) * d), p)
     c.eq('gradient_is_transposed_jacobian_times_direction', g, spec, tol=1e-4)
+    w = CUQIarray(p.copy(), is_par=True, geometry=gd)
+    c.eq('gradient_wrt_cuqiarray_parameters', np.asarray(model.gradient(d, w)), spec, tol=1e-4)
+    q = c.vec('q', n); w[:] = q
+    c.eq('gradient_wrt_cuqiarray_after_in_place_update_uses_the_current_values', np.asarray(model.gradient(d, w)),
+         c.grad_of(lambda v: np.sum(np.asarray(model.forward(v)) * d), q), tol=1e-4)
     ga = model.gradient(CUQIarray(d, geometry=model.range_geometry), p)
     c.holds('cuqiarray_direction_gives_cuqiarray_gradient', isinstance(ga, CUQIarray))
     c.eq('gradient_of_cuqiarray_direction', np.asarray(ga), spec, tol=1e-4)
